@@ -2143,6 +2143,13 @@ static int flush (hawk_sed_t* sed)
 
 static int write_char (hawk_sed_t* sed, hawk_ooch_t c)
 {
+	if (sed->e.out.nonl)
+	{
+		/* terminate the unterminated line written previously */
+		sed->e.out.nonl = 0;
+		if (write_char(sed, HAWK_T('\n')) <= -1) return -1;
+	}
+
 	sed->e.out.buf[sed->e.out.len++] = c;
 	if (c == HAWK_T('\n') ||
 	    sed->e.out.len >= HAWK_COUNTOF(sed->e.out.buf))
@@ -2157,6 +2164,13 @@ static int write_str (hawk_sed_t* sed, const hawk_ooch_t* str, hawk_oow_t len)
 {
 	hawk_oow_t i;
 	int flush_needed = 0;
+
+	if (sed->e.out.nonl && len > 0)
+	{
+		/* terminate the unterminated line written previously */
+		sed->e.out.nonl = 0;
+		if (write_char(sed, HAWK_T('\n')) <= -1) return -1;
+	}
 
 	for (i = 0; i < len; i++)
 	{
@@ -2183,8 +2197,20 @@ static int write_first_line (
 	{
 		if (write_char (sed, str[i]) <= -1) return -1;
 		/* TODO: handle different line ending convension... */
-		if (str[i] == HAWK_T('\n')) break;
+		if (str[i] == HAWK_T('\n')) return 0;
 	}
+	if (len > 0) sed->e.out.nonl = 1; /* see write_line() */
+	return 0;
+}
+
+static int write_line (
+	hawk_sed_t* sed, const hawk_ooch_t* str, hawk_oow_t len)
+{
+	/* write the pattern space. the last input line may come without
+	 * a line terminator. it is written as it is, but anything written
+	 * after it must begin on a new line. */
+	if (write_str(sed, str, len) <= -1) return -1;
+	if (len > 0 && str[len - 1] != HAWK_T('\n')) sed->e.out.nonl = 1;
 	return 0;
 }
 
@@ -2731,7 +2757,7 @@ static int do_subst (hawk_sed_t* sed, hawk_sed_cmd_t* cmd)
 	{
 		if (cmd->u.subst.p)
 		{
-			n = write_str (
+			n = write_line (
 				sed,
 				HAWK_OOECS_PTR(&sed->e.in.line),
 				HAWK_OOECS_LEN(&sed->e.in.line)
@@ -3262,7 +3288,7 @@ static hawk_sed_cmd_t* exec_cmd (hawk_sed_t* sed, hawk_sed_cmd_t* cmd)
 			break;
 
 		case HAWK_SED_CMD_PRINT:
-			n = write_str (
+			n = write_line (
 				sed,
 				HAWK_OOECS_PTR(&sed->e.in.line),
 				HAWK_OOECS_LEN(&sed->e.in.line)
@@ -3607,7 +3633,7 @@ static int emit_output (hawk_sed_t* sed, int skipline)
 	if (!skipline && !(sed->opt.trait & HAWK_SED_QUIET))
 	{
 		/* write the pattern space */
-		n = write_str (sed,
+		n = write_line (sed,
 			HAWK_OOECS_PTR(&sed->e.in.line),
 			HAWK_OOECS_LEN(&sed->e.in.line));
 		if (n <= -1) return -1;
@@ -3661,6 +3687,7 @@ int hawk_sed_exec (hawk_sed_t* sed, hawk_sed_io_impl_t inf, hawk_sed_io_impl_t o
 	sed->e.out.fun = outf;
 	sed->e.out.eof = 0;
 	sed->e.out.len = 0;
+	sed->e.out.nonl = 0;
 	if (hawk_map_init(
 		&sed->e.out.files, hawk_sed_getgem(sed),
 		128, 70, HAWK_SIZEOF(hawk_ooch_t), 1) <= -1) return -1;
